@@ -232,7 +232,11 @@ class Impl:
         if k == "rmchain":
             cp = os.path.join(self.P(op["hist"]), "ascmhl", "ascmhl_chain.xml")
             if os.path.exists(cp):
-                os.remove(cp)
+                if op.get("leave_tmp"):
+                    # the chain file is gone, a complete copy under the chain writer's temporary name is left
+                    os.replace(cp, cp + ".tmp")
+                else:
+                    os.remove(cp)
             return None
         if k == "legacychain":
             # the chain kept in the text form of the first releases (ascmhl/chain.txt: "0001 <manifest> c4: <digest>"
@@ -250,6 +254,21 @@ class Impl:
                     f.write("\n".join(lines) + "\n")
                 if not op.get("keep_xml"):
                     os.remove(cp)
+            return None
+        if k == "staletmp":
+            # what an earlier create left behind when it was killed while writing: the first half of the chain file under
+            # the chain writer's temporary name, the first half of the latest manifest under a manifest's temporary name
+            ad = os.path.join(self.P(op["hist"]), "ascmhl")
+            cp = os.path.join(ad, "ascmhl_chain.xml")
+            if os.path.exists(cp):
+                b = open(cp, "rb").read()
+                with open(cp + ".tmp", "wb") as f:
+                    f.write(b[: len(b) // 2] if op.get("torn", True) else b)
+                ms = sorted(x for x in os.listdir(ad) if x.endswith(".mhl"))
+                if ms and op.get("manifest", True):
+                    b = open(os.path.join(ad, ms[-1]), "rb").read()
+                    with open(os.path.join(ad, "%04d_left_2026-01-01_000000Z.mhl.tmp" % (len(ms) + 1)), "wb") as f:
+                        f.write(b[: len(b) // 2])
             return None
         if k == "rmhist":
             shutil.rmtree(os.path.join(self.P(op["hist"]), "ascmhl"), ignore_errors=True)
@@ -394,6 +413,12 @@ class Impl:
             for o2 in ("author_name", "author_email", "author_phone", "author_role", "location", "comment"):
                 if op.get(o2) is not None:
                     fopts += ["--" + o2, op[o2]]
+            if op.get("n"):
+                fopts.append("-n")
+            for i_ in op.get("i", []):
+                fopts += ["-i", i_]
+            if op.get("ii"):
+                fopts += ["-ii", self._ii(op["ii"])]
             if op.get("dest_missing_parent"):
                 # a destination whose parent folders do not exist (a mistyped volume): whatever flatten does, it has no
                 # business creating folders that are not below the destination
